@@ -54,6 +54,9 @@ both_families! {
 
 	pub fn check(case: &Case, exp: &AuthParts, cx: &mut Ctx) -> Result<bool, Failure> {
 		let text = case.authority.as_str();
+		// validity gate: only valid authorities are in the domain (an arbitrary text embedded in
+		// a URI would simply parse as something else)
+		if Authority::new(text).is_err() { return Ok(false) }
 		match case.route {
 			Route::Standalone => {
 				let a = match Authority::new(text) { Ok(a) => a, Err(_) => return Ok(false) };
